@@ -275,7 +275,15 @@ def _perturb_fn(draw, fn):
             return ["c", round(e[1] + delta, 2)]
         return [pe(x) for x in e]
 
-    return {"np": fn["np"], "kw": list(fn["kw"]), "body": [[s[0], s[1]] + [pe(x) for x in s[2:]] for s in fn["body"]], "ret": pe(fn["ret"])}
+    body = [[s[0], s[1]] + [pe(x) for x in s[2:]] for s in fn["body"]]
+    # in a third of the twins one normal site becomes a uniform on (loc, loc + scale): the branches of the Cond then have
+    # different supports at a shared address (the value visible from one branch can be impossible under the other)
+    normals = [i for i, s in enumerate(body) if s[0] == "draw" and s[2] == "normal"]
+    if normals and draw(st.integers(0, 2)) == 0:
+        i = draw(st.sampled_from(normals))
+        m, sd = body[i][3]
+        body[i] = ["draw", body[i][1], "uniform", [m, ["add", m, sd]]]
+    return {"np": fn["np"], "kw": list(fn["kw"]), "body": body, "ret": pe(fn["ret"])}
 
 
 @st.composite
